@@ -38,6 +38,9 @@ func Start(d *vdisk.Disk, unstable bool) (s *Srv, err error) {
 	}()
 	n := nfs.MakeNfs(d)
 	n.Unstable = unstable
+	if UseTransport {
+		return &Srv{D: d, N: n, API: NewRpcAPI(n)}, nil
+	}
 	return &Srv{D: d, N: n, API: n}, nil
 }
 
